@@ -111,11 +111,13 @@ Proof.
 Qed.
 
 (** Response headers that are neither hop-by-hop nor framing are returned
-    with the same values in the same order. *)
-Theorem c13_response_headers_kept : forall (gz nonempty : bool) raw k,
+    with the same values in the same order (Content-Type is dropped on a 304 by
+    net/http's server: known finding C13-F6). *)
+Theorem c13_response_headers_kept : forall status (gz nonempty : bool) raw k,
   mem_str k (K_cl :: K_ce :: hop_headers) = false ->
+  (status =? 304) && str_eqb k K_ct = false ->
   mem_str k (connection_listed (if gz then hdel K_ce (resp_canonical raw) else resp_canonical raw)) = false ->
-  hvalues k (fst (fst (client_headers gz nonempty raw))) = hvalues k (resp_canonical raw).
+  hvalues k (fst (fst (client_headers status gz nonempty raw))) = hvalues k (resp_canonical raw).
 Proof. exact client_header_kept. Qed.
 
 (** The pinned tree violates [c13_strip] (fixed by fixes/C13-strip-rawpath.patch):
